@@ -242,41 +242,178 @@ def r4(cx, ast):
              note_ok="four equality tests against full literal names")
 
 
-def r5(cx, ast, rule="C08.R5"):
-    fv = [f for f in ast.fns(GEN, "to_rust_string") if "VType<" in f.qual]
-    fx = [f for f in ast.fns(GEN, "to_rust_string") if "VTypeExt<" in f.qual]
+def _variant_edges(body, cfg, du, of_place_local=1):
+    """the top-level `match *self`: {variant name: (edge, blocks reachable behind it)}, plus whether an arm catches `the rest`"""
+    for b in body.blocks:
+        if b.cleanup or b.term.kind != "switch": continue
+        c = switch_cond(body, du, b.term)
+        if c.kind == "discr" and c.place.l == of_place_local and tuple(c.place.p) == ("*",):
+            out = {}
+            for lab, dst in cfg.succ[b.idx]:
+                e = (b.idx, lab, dst)
+                out[lab] = (e, cfg.after(e))
+            rest = None
+            if b.term.otherwise is not None and body.blocks[b.term.otherwise].term.kind != "unreachable": rest = b.term.otherwise
+            return b, out, rest
+    return None, {}, None
+
+
+def _enum_variants(cx, name):
+    for u in cx.mir.units:
+        for it in u.items:
+            if it.get("kind") == "Enum" and it.get("path", "").split("::")[-1] == name:
+                return [v["name"] for v in it.get("variants", [])]
+    return []
+
+
+def _results(body, region):
+    """how the return place is written inside a region: [("call", term) | ("stmt", stmt)]"""
+    out = []
+    for bi in sorted(region):
+        blk = body.blocks[bi]
+        if blk.cleanup: continue
+        for st in blk.stmts:
+            if st.kind == "assign" and st.lhs.l == 0 and not st.lhs.p: out.append(("stmt", st))
+        t = blk.term
+        if t.kind == "call" and t.dest is not None and t.dest.l == 0 and not t.dest.p: out.append(("call", t))
+    return out
+
+
+def r5(cx, ast=None, rule="C08.R5"):
+    """decided on the MIR of the two to_rust_string impls (helpers inlined, format! templates evaluated), not on their source text"""
+    from vlib import fmt
+    from vlib.cfg import const_strings
+    GENPKG = "varlink_generator"
+    impls = [b for b in cx.mir.bodies(GENPKG) if b.promoted is None and b.path.endswith("::to_rust_string") and b.kind != "Closure"]
+    fv = [b for b in impls if (b.impl_self or "").split("<")[0].endswith("VType")]
+    fx = [b for b in impls if (b.impl_self or "").split("<")[0].endswith("VTypeExt")]
     if len(fv) != 1 or len(fx) != 1: raise AnchorMissing("to_rust_string impls")
-    arms_v = [e for e in fv[0].events if e["k"] == "arm"]
-    arms_x = [e for e in fx[0].events if e["k"] == "arm"]
+    # ---------------- VType
+    body = fv[0]; cx.saw(body)
+    cfg = Cfg(body); du = DefUse(body); sl = Slice(body, du)
+    names = _enum_variants(cx, "VType")
+    sw, edges, rest = _variant_edges(body, cfg, du)
+    why = []
+    if sw is None: raise AnchorMissing("VType::to_rust_string: match on *self")
+    if rest is not None: why.append("wildcard arm on VType")
+    if len(names) != 8: why.append("%d constructors on VType (8 expected)" % len(names))
+    def strings_of(b, s_l, d_u, kind, o):
+        """string constants a result site can return (through .into()/Cow, Option::unwrap_or(default))"""
+        ops = o.args[:1] if kind == "call" else o.ops
+        out = []
+        for a in ops:
+            out += const_strings(b, s_l, a)
+            for k, c in s_l.origins(a):
+                if k == "call" and c.callee.name in ("unwrap_or",) and len(c.args) == 2: out += const_strings(b, s_l, c.args[1])
+        return out
+    for vn, want in (("Bool", "bool"), ("Int", "i64"), ("Float", "f64"), ("String", "String"), ("Object", "serde_json::Value")):
+        if vn not in names or names.index(vn) not in edges: why.append("no arm for VType::%s" % vn); continue
+        res = _results(body, edges[names.index(vn)][1])
+        got = sorted({x for k, o in res for x in strings_of(body, sl, du, k, o)})
+        if got != [want]: why.append("VType::%s maps to %s (expected %s)" % (vn, got, want))
+    if "Typename" in names and names.index("Typename") in edges:
+        res = _results(body, edges[names.index("Typename")][1])
+        def from_payload(op, variant):
+            if op is None or op.place is None: return False
+            s2 = Slice(body, du, extra_pass=("=as_ref", "=deref", "=borrow", "=clone"))
+            s2.origins(op)
+            return any(l == 1 and any(("as " + variant) in e for e in proj) for (l, proj) in s2.last_seen)
+        ok = bool(res) and all(k == "call" and o.callee.name in ("into", "from", "to_string", "to_owned") and o.args and from_payload(o.args[0], "Typename") for k, o in res)
+        if not ok: why.append("a type reference is not emitted by its own name")
+    else: why.append("no arm for VType::Typename")
+    for vn in ("Enum", "Struct"):
+        if vn not in names or names.index(vn) not in edges: why.append("no arm for VType::%s" % vn); continue
+        e, region = edges[names.index(vn)]
+        emit = [t for t in body.calls("=to_tokenstream") if t.bb in region and len(t.args) >= 2 and any(k == "arg" and o == 2 for k, o in sl.origins(t.args[1]))]
+        res = _results(body, region)
+        named = bool(res) and all(any(k2 == "arg" and o2 == 2 for a in (o.args[:1] if k == "call" else o.ops) for k2, o2 in Slice(body, du, extra_pass=("=to_string", "=into", "=to_owned", "=from")).origins(a)) for k, o in res)
+        dom = bool(emit) and all(cfg.must_pass(e[2], [body.blocks[bi].idx for bi in region if body.blocks[bi].term.kind == "return"], {t.bb for t in emit}) for _ in [0])
+        if not (emit and named and dom): why.append("VType::%s does not emit the inline type it names" % vn)
+    cx.check(not why, rule, "gen:VType:table", body.sp, "; ".join(why), note_ok="bool i64 f64 String Value | typename | inline struct/enum emitted and named")
+    # ---------------- VTypeExt
+    body = fx[0]; cx.saw(body)
+    cfg = Cfg(body); du = DefUse(body); sl = Slice(body, du)
+    names = _enum_variants(cx, "VTypeExt")
+    vnames = _enum_variants(cx, "VType")
+    sw, edges, rest = _variant_edges(body, cfg, du)
+    why = []
+    if sw is None: raise AnchorMissing("VTypeExt::to_rust_string: match on *self")
+    if rest is not None: why.append("wildcard arm on VTypeExt")
+    def payload_of(op, variant):
+        """does the operand derive from the payload of `variant` of self?"""
+        if op is None or op.place is None: return False
+        s2 = Slice(body, du, extra_pass=("=as_ref", "=deref", "=borrow", "=clone"))
+        s2.origins(op)
+        for (l, proj) in s2.last_seen:
+            if l == 1 and any(("as " + variant) in e for e in proj): return True
+        return False
+    def shapes(region, variant):
+        """(text pattern, element generated through to_rust_string of the payload?) per result site"""
+        out = []
+        for k, o in _results(body, region):
+            if k == "call" and o.callee.name == "to_rust_string":
+                out.append(("<delegated>", payload_of(o.args[0], variant), o.bb)); continue
+            r = fmt.render(body, du, sl, o) if k == "call" else None
+            if r is not None:
+                text, holes = r
+                rec = len(holes) == 1 and any(kk == "call" and c.callee.name == "to_rust_string" and c.bb in region and payload_of(c.args[0], variant)
+                                              for kk, c in Slice(body, du, extra_pass=("=as_ref", "=deref", "=borrow")).origins(holes[0]))
+                out.append((text, rec, o.bb)); continue
+            cs = sorted(set(const_strings(body, sl, (o.args[0] if k == "call" else o.ops[0])))) if (o.args if k == "call" else o.ops) else []
+            out.append((cs[0] if len(cs) == 1 else "<unknown>", False, o.bb))
+        return out
+    def region_of(vn):
+        if vn not in names or names.index(vn) not in edges: return None
+        return edges[names.index(vn)]
     got = {}
-    for e in arms_v: got[e["text"].replace(" ", "").split("(")[0]] = e["body"].replace(" ", "")
-    why = []
-    for k, v in TYPE_TABLE.items():
-        b = got.get(k, "")
-        if '"%s"' % v not in b: why.append("%s maps to %s (expected %s)" % (k, b[:50], v))
-    if not re.fullmatch(r"\w+\.into\(\)", got.get("VType::Typename", "")): why.append("a type reference is not emitted by its own name")
-    for k in ("VType::Enum", "VType::Struct"):
-        b = got.get(k, "")
-        if not re.search(r"\w+\.to_tokenstream\(name,", b) or "name.to_string()" not in b: why.append("%s does not emit the inline type it names" % k)
-    if any(e["text"].strip() == "_" for e in arms_v): why.append("wildcard arm on VType")
-    if len(arms_v) != 8: why.append("%d arms on VType (8 constructors)" % len(arms_v))
-    cx.check(not why, rule, "gen:VType:table", "%s:%d" % (GEN, fv[0].line), "; ".join(why), note_ok="bool i64 f64 String Value | typename | inline struct/enum emitted and named")
-    gx = {}
-    for e in arms_x: gx.setdefault(e["text"].replace(" ", "").split("(")[0], []).append(e)
-    why = []
-    def body(k): return gx[k][0]["body"].replace(" ", "") if k in gx else ""
-    if not re.search(r"\w+\.to_rust_string\(", body("VTypeExt::Plain")): why.append("Plain does not delegate")
-    if not re.search(r'format!\("Vec<\{\}>",\w+\.to_rust_string\(', body("VTypeExt::Array")): why.append("Array is not Vec<element> with the element type generated")
-    if not re.search(r'format!\("Option<\{\}>",\w+\.to_rust_string\(', body("VTypeExt::Option")): why.append("Option is not Option<element> with the element type generated")
-    d = body("VTypeExt::Dict")
-    inner = [e for e in arms_x if re.match(r"VTypeExt::Plain\(VType::Struct\((ref)?\w+\)\)", e["text"].replace(" ", ""))]
-    fall = [e for e in arms_x if e["text"].strip() == "_"]
-    if not inner or not re.fullmatch(r"\w+\.elts\.is_empty\(\)", inner[0].get("guard", "").replace(" ", "")) or '"varlink::StringHashSet"' not in inner[0]["body"].replace(" ", ""): why.append("[string]() is not mapped to StringHashSet exactly when the struct is empty")
-    if len(fall) != 1 or not re.search(r'format!\("varlink::StringHashMap<\{\}>",\w+\.to_rust_string\(', fall[0]["body"].replace(" ", "")):
-        why.append("a map of a non-empty element type is not StringHashMap<element> with the element type generated through to_rust_string (an inline struct/enum value type would be named but never emitted)")
-    top_wild = [e for e in arms_x if e["text"].strip() == "_" and e["depth"] == min(a["depth"] for a in arms_x)]
-    if top_wild: why.append("wildcard arm on VTypeExt")
-    cx.check(not why, rule, "gen:VTypeExt:table", "%s:%d" % (GEN, fx[0].line), "; ".join(why), note_ok="Vec<T> | StringHashSet for [string]() | StringHashMap<T> | Option<T>, each recursing into T")
+    for vn, want in (("Plain", "<delegated>"), ("Array", "Vec<{}>"), ("Option", "Option<{}>")):
+        er = region_of(vn)
+        if er is None: why.append("no arm for VTypeExt::%s" % vn); continue
+        sh = shapes(er[1], vn); got[vn] = sh
+        if not sh or any(t != want or not rec for t, rec, _ in sh):
+            why.append({"Plain": "Plain does not delegate", "Array": "Array is not Vec<element> with the element type generated", "Option": "Option is not Option<element> with the element type generated"}[vn] + " (%s)" % [(t, r) for t, r, _ in sh])
+    er = region_of("Dict")
+    if er is None: why.append("no arm for VTypeExt::Dict")
+    else:
+        e, region = er
+        sh = shapes(region, "Dict"); got["Dict"] = sh
+        sets = [x for x in sh if x[0] == "varlink::StringHashSet"]
+        maps = [x for x in sh if x[0] == "varlink::StringHashMap<{}>" and x[1]]
+        if len(sets) + len(maps) != len(sh) or not maps:
+            why.append("a map of a non-empty element type is not StringHashMap<element> with the element type generated through to_rust_string (an inline struct/enum value type would be named but never emitted) (%s)" % [(t, r) for t, r, _ in sh])
+        if not sets: why.append("[string]() is not mapped to StringHashSet exactly when the struct is empty")
+        elif maps:
+            # path by path: the set is returned exactly when the value type is Plain(Struct(s)) with s.elts.is_empty()
+            from vlib.cfg import enumerate_paths
+            from vlib.pathcond import literals
+            hit = [False]
+            paths = enumerate_paths(cfg, e[2], lambda blk: blk.term.kind == "return", du=du, on_limit=lambda: hit.__setitem__(0, True))
+            pi = names.index("Plain") if "Plain" in names else -1; si = vnames.index("Struct") if "Struct" in vnames else -1
+            set_bbs = {x[2] for x in sets}; map_bbs = {x[2] for x in maps}
+            bad = 0; n = 0
+            for pth in ([] if hit[0] else paths):
+                ends_set = any(bb in set_bbs for bb in pth); ends_map = any(bb in map_bbs for bb in pth)
+                if not (ends_set or ends_map): continue
+                n += 1
+                is_plain = None; is_struct = None; empty = None
+                full = [e[0]] + pth
+                for i in range(len(full) - 1):
+                    t = body.blocks[full[i]].term
+                    if t.kind != "switch" or t.discr is None or t.discr.place is None or t.discr.place.p: continue
+                    ds = du.value_defs(t.discr.place.l)
+                    if len(ds) == 1 and ds[0][0] == "stmt" and ds[0][1].rv == "discr" and ds[0][1].rplace is not None and full[i] != e[0]:
+                        pl = ds[0][1].rplace
+                        labs = [lab for lab, d in cfg.succ[full[i]] if d == full[i + 1]]
+                        if not labs: continue
+                        if any("as Plain" in x for x in pl.p): is_struct = (labs[0] == si)
+                        else: is_plain = (labs[0] == pi)
+                for lit in literals(body, full):
+                    if lit.kind == "call" and lit.obj.callee.name == "is_empty": empty = lit.truth
+                allthree = is_plain is True and is_struct is True and empty is True
+                if ends_set and not allthree: bad += 1
+                if ends_map and allthree: bad += 1
+            if hit[0] or n == 0 or bad: why.append("[string]() is not mapped to StringHashSet exactly when the struct is empty (%d of %d paths through the Dict arm disagree)" % (bad, n))
+    cx.check(not why, rule, "gen:VTypeExt:table", body.sp, "; ".join(why), note_ok="Vec<T> | StringHashSet for [string]() | StringHashMap<T> | Option<T>, each recursing into T")
 
 
 def r6(cx, ast):
